@@ -16,8 +16,8 @@ class SizeExtractor:
         backup_copy = path_of_backup_copy(trashinfo_path)
         try:
             return str(file_size(backup_copy))
-        except FileNotFoundError:
+        except OSError:
             if os.path.islink(backup_copy):
                 return 0
             else:
-                raise
+                return '?'
